@@ -145,6 +145,13 @@ fn run_real(pushes: &[Push], variant: u8) -> Result<RealOut, String> {
                 }
                 Push::Query(k, v) => match variant {
                     0 | 5 => b.push_query_parameter_raw(k, v),
+                    6 => {
+                        // empty collections write nothing and leave the `?` to the first pair that is written
+                        b.push_list_query_parameter::<String>("emptyList", &[]);
+                        b.push_set_query_parameter::<String>("emptySet", &BTreeSet::new());
+                        b.push_optional_query_parameter::<String>("absent", &None);
+                        b.push_query_parameter(k, v)
+                    }
                     1 => b.push_query_parameter(k, v),
                     2 => b.push_list_query_parameter(k, std::slice::from_ref(v)),
                     3 => b.push_optional_query_parameter(k, &Some(v.clone())),
@@ -321,8 +328,8 @@ trait MacroKeysService {
     #[endpoint(method = GET, path = "/m/{p}/x")]
     fn weird(
         &self,
-        #[path] p: String,
-        #[query(name = "page&size")] a: String,
+        #[path(log_as = "pathParam")] p: String,
+        #[query(name = "page&size", log_as = "pageAndSize")] a: String,
         #[query(name = "a=b")] b: String,
         #[query(name = "c+d e")] c: String,
         #[query(name = "k%41")] d: String,
@@ -337,7 +344,7 @@ impl MacroKeysService for std::sync::Arc<KeysHandler> {
     }
 }
 
-fn macro_server_reads(path_and_query: &str) -> Result<Vec<String>, String> {
+pub fn macro_server_reads(path_and_query: &str) -> Result<Vec<String>, String> {
     let pq = path_and_query.to_string();
     guarded(move || {
         use conjure_http::server::{Endpoint, Service};
@@ -431,6 +438,7 @@ pub fn cases(seed: u64, tier: Tier) -> Cases {
     for (name, t) in templates("", "") {
         one(&mut cs, name, &t, 0, true);
         one(&mut cs, name, &t, 5, true);
+        one(&mut cs, name, &t, 6, true);
     }
     // seeded Unicode strings
     let n = if tier == Tier::Quick { 300 } else { 5000 };
@@ -441,7 +449,7 @@ pub fn cases(seed: u64, tier: Tier) -> Cases {
         let w: String = (0..rng.below(8)).map(|_| *rng.pick(&pool)).collect();
         let ts = templates(&v, &w);
         let (name, t) = &ts[rng.below(ts.len())];
-        one(&mut cs, name, t, rng.below(6) as u8, true);
+        one(&mut cs, name, t, rng.below(7) as u8, true);
     }
     // very long values: within and beyond http::Uri's limit
     for len in [21000usize, 21840, 21845, 65000, 65531, 65532, 65533, 65534, 70000] {
